@@ -3341,6 +3341,27 @@ def frag_influence_args(src):
                % (ast.unparse(a0["infl"]), sig, ve.tr(a0["infl"], "a")))
     out.append("/-- dk ≠ 0: infl = %s  (entry [e, l]) -/\ndef infl_entry %s (e l : ℕ) : K :=\n  %s\n"
                % (ast.unparse(a1["infl"]), sig, ve.tr(a1["infl"], None)))
+    # tcut <-> dkmax conversion of TempoParameters (_parameter_memory_input_parse)
+    pm = src.function("oqupy/tempo.py", "_parameter_memory_input_parse")
+    hits = [h for h in src.assignment(pm, "tmp_dkmax") if not isinstance(h.value, ast.Name)
+            and not (isinstance(h.value, ast.Constant))]
+    hits = [h for h in hits if "tcut" in ast.unparse(h.value)]
+    if len(hits) != 1:
+        raise Untranslatable("_parameter_memory_input_parse: expected one tcut -> dkmax expression")
+    tr = FnTranslator({"tcut": "Flt", "dt": "Flt"})
+    t = tr.expr(hits[0].value)
+    if t[1] != "Int":
+        raise Untranslatable("_parameter_memory_input_parse: tcut -> dkmax is not an int")
+    out.append(emit_def("tcut_to_dkmax", tr, t[0], "Int", ["tcut", "dt"],
+                        "oqupy/tempo.py:%d  _parameter_memory_input_parse: tmp_dkmax = %s"
+                        % (hits[0].lineno, ast.unparse(hits[0].value))))
+    hits = [h for h in src.assignment(pm, "tmp_tcut") if "dkmax" in ast.unparse(h.value)]
+    if len(hits) != 1:
+        raise Untranslatable("_parameter_memory_input_parse: expected one dkmax -> tcut expression")
+    tr = FnTranslator({"dkmax": "Int", "dt": "Flt"})
+    out.append(emit_def("dkmax_to_tcut", tr, tr.to_flt(tr.expr(hits[0].value)), "Flt", ["dkmax", "dt"],
+                        "oqupy/tempo.py:%d  _parameter_memory_input_parse: tmp_tcut = %s"
+                        % (hits[0].lineno, ast.unparse(hits[0].value))))
     # the names bound to op_p / op_m
     names = assigns(fn.body)
     if ast.unparse(names.get("op_p")) != "coupling_acomm" or ast.unparse(names.get("op_m")) != "coupling_comm":
